@@ -52,6 +52,13 @@ ODD_TEXT = ("", "åäö", "日本語", "a\tb", "\x00", "x;y", '"quoted"', "back\
             "u\u0308ber", "Probe 10k\u2126", "\u212a", "e\u0301", "\ufb01", "\u1e9b\u0323", "A\u030a")
 
 
+JSON_CHARS = (",", ":", "[", "]", "{", "}", '"', "\\", "'", "/")
+# every pair of characters that mean something to JSON, adjacent and separated by white space, inside text (a loader that "repairs" the file text
+# - trailing commas, comments, quotes - rewrites such text); plus a few longer spellings
+JSON_LOOKING = tuple(f"a{x}{y}b" for x in JSON_CHARS for y in JSON_CHARS) + tuple(f"{x} \t{y}" for x in JSON_CHARS for y in JSON_CHARS) + (
+    "[1,2,]", '{"a":1,}', "x, }", ",]", ",}", "[,]", "1,\t]", '",]"', '\\",}', "],[", "}{", '":"', "[[],]", "a,]b,}c")
+
+
 def budgets(tier: str) -> dict:
     if tier == "quick":
         return {"examples": 1500, "shards": 4}
@@ -81,7 +88,7 @@ def _lines():
 
 
 _int_any = st.one_of(st.integers(-3, 60), st.sampled_from((10**30, -(10**30), 2**63)))
-_text = st.one_of(st.sampled_from(ODD_TEXT), st.text(max_size=12))
+_text = st.one_of(st.sampled_from(ODD_TEXT), st.sampled_from(JSON_LOOKING), st.text(max_size=12))
 
 
 @st.composite
@@ -166,7 +173,7 @@ def enumerate_cases(tier: str):
     yield {"kind": "hist", "version": "2.1", "ops": [["rx", "1;255;0;0;17;2.1\n"], ["rx", "1;0;0;0;6;t\n"], ["rx", "1;0;1;0;0;20\n"], ["rx", "1;255;3;0;0;7\n"]], "load_via": "explicit", "final_saves": 1,
            "reload_after_use": True}
     # texts in every text field, one per case: saved and loaded back unchanged
-    for text in ODD_TEXT:
+    for text in ODD_TEXT + JSON_LOOKING:
         ops = [["rx", "1;255;0;0;17;2.1\n"], ["rx", f"1;255;3;0;11;{text}\n"], ["rx", f"1;255;3;0;12;{text}\n"], ["rx", f"1;0;0;0;6;{text}\n"], ["rx", f"1;0;1;0;47;{text}\n"], ["rx", f"2;255;0;0;17;{text}\n"]]
         yield {"kind": "hist", "version": "2.2", "ops": ops, "load_via": "own", "final_saves": 1}
     # integer fields changing between two saves by the same object to values with the same hash() (-1/-2, n / n + 2**61-1)
